@@ -70,7 +70,8 @@ EXPANDABLE = set(IF_PRIMS) | {'else', 'or', 'fi', 'csname', 'expandafter', 'arab
 PRIMS = ['def', 'gdef', 'newcommand', 'renewcommand', 'let', 'csname', 'endcsname', 'expandafter', 'relax',
          'else', 'or', 'fi', 'newif', 'catcode', 'makeatletter', 'makeatother', 'begingroup', 'endgroup',
          'newcounter', 'setcounter', 'addtocounter', 'stepcounter', 'arabic', 'value', 'par', 'begin', 'end', 'item',
-         'textbf', 'mbox', 'emph', '\\', '(', ')', 'global', 'newenvironment', 'pvendenvfinish', 'ifthenelse', 'whiledo', 'newboolean', 'setboolean', 'number'] + list(IF_PRIMS)
+         'textbf', 'mbox', 'emph', '\\', '(', ')', 'global', 'newenvironment', 'pvendenvfinish', 'ifthenelse', 'whiledo', 'newboolean', 'setboolean', 'number',
+         'small', 'bfseries', 'itshape', 'large'] + list(IF_PRIMS)
 
 UNITS = {'pt': Fraction(1), 'pc': Fraction(12), 'in': Fraction(7227, 100), 'bp': Fraction(7227, 7200), 'cm': Fraction(7227, 254),
          'mm': Fraction(7227, 2540), 'dd': Fraction(1238, 1157), 'cc': Fraction(14856, 1157), 'sp': Fraction(1, 65536)}
@@ -908,6 +909,12 @@ class Interp(object):
             self.meaning['@endarg'] = Prim('@endarg')
 
     p_textbf = p_mbox = p_emph = _boxed
+
+    def _declaration(self, t):
+        # font and size declarations: no text, no group, in force until the enclosing group ends
+        pass
+
+    p_small = p_bfseries = p_itshape = p_large = _declaration
 
     def p__endarg(self, t):
         self.end_group('arg')
